@@ -32,7 +32,10 @@ def run(ctx, ck):
     ck.rule('R-CACHE.owner-only', 'per-object cache computed from the object it is stored on')
     ck.rule('R-SIB.add-conn', '_add_conn registers both directions; junction pulse signs from both indices')
 
-    cnt = half_obligations(ctx, ck, [FILL, HELPER], want_sums=(FILL, HELPER), want_divs=(FILL,))
+    # (the near field too: which half of a pulse is the 'upper' one depends on how the wires are written down)
+    NF = 'mininec.Mininec.compute_near_field'
+    cnt = half_obligations(ctx, ck, [FILL, HELPER, NF, 'mininec.Mininec.psi_near_field_56'], want_sums=(FILL, HELPER),
+                           want_divs=(FILL, NF), sym_funcs=('mininec.Mininec.psi_near_field_56',))
     ck.info('half_counts', cnt)
     # (a term reported above for lacking factors has that many products fewer: not a lost anchor)
     ck.floor('per-half products', cnt['products'] + cnt['missing_factors'], 14)
